@@ -3,6 +3,8 @@ package rigv
 import (
 	"fmt"
 	"math/rand"
+	"os"
+	"runtime"
 	"sort"
 	"strings"
 	"sync"
@@ -49,7 +51,7 @@ type c11Ledger struct {
 
 func (l *c11Ledger) outstanding(min bool, now time.Time) (n, bytes int) {
 	for _, m := range l.byMsg {
-		if m.state != "out" {
+		if m.state != "out" && !(m.state == "acking" && !min) {
 			continue
 		}
 		if min && !m.leaseHi.After(now) {
@@ -70,6 +72,11 @@ func (l *c11Ledger) onSend(b rig.SentBatch) {
 		if m == nil {
 			l.viol = append(l.viol, "unknown-message|stream sent unknown message "+rm.Message.MessageId)
 			continue
+		}
+		if m.state == "acking" {
+			// sent while an Acknowledge for it is in flight: the ack lost the race
+			// against the lease; whether that is legitimate is C03/C04's concern
+			m.state = "out"
 		}
 		if m.state == "acked" {
 			l.viol = append(l.viol, fmt.Sprintf("sent-after-ack|message %s sent on the stream after it was acknowledged", m.id[:8]))
@@ -188,6 +195,46 @@ func (l *c11Ledger) headOfLinePossible(d rig.Dump) bool {
 		}
 	}
 	return tieBig >= L-before
+}
+
+// dueRows describes the delivery rows of the messages the ledger holds
+// deliverable (diagnosis only).
+func (l *c11Ledger) dueRows(d rig.Dump) string {
+	l.mu.Lock()
+	defer l.mu.Unlock()
+	now := time.Now()
+	var out []string
+	for _, r := range d["deliveries"] {
+		m := l.byMsg[r["message_id"]]
+		if m == nil || r["completed_at"] != "NULL" {
+			continue
+		}
+		at, _ := time.Parse(time.RFC3339Nano, r["attempt_at"])
+		out = append(out, fmt.Sprintf("%s(%s %dB attempts=%s attempt_at=now%+v)", m.id[:8], m.state, m.size, r["attempts"], at.Sub(now)))
+	}
+	sort.Strings(out)
+	return strings.Join(out, " ")
+}
+
+// leasedInDB: every message the ledger holds deliverable is, in the database,
+// leased into the future.
+func (l *c11Ledger) leasedInDB(d rig.Dump) bool {
+	l.mu.Lock()
+	defer l.mu.Unlock()
+	now := time.Now()
+	n := 0
+	for _, r := range d["deliveries"] {
+		m := l.byMsg[r["message_id"]]
+		if m == nil || m.state != "due" || r["completed_at"] != "NULL" {
+			continue
+		}
+		at, err := time.Parse(time.RFC3339Nano, r["attempt_at"])
+		if err != nil || !at.After(now) {
+			return false
+		}
+		n++
+	}
+	return n > 0
 }
 
 type lockedRand struct {
@@ -333,10 +380,28 @@ func TestC11(t *testing.T) {
 			checkStall := func(after string) {
 				if s := led.stalled(); s != "" {
 					parts := strings.SplitN(s, "|", 2)
-					if parts[0] == "byte-head-of-line" && !led.headOfLinePossible(must(rig.TakeDump(e.RawDB()))) {
+					if os.Getenv("VERIF_DEBUG_STACKS") != "" {
+						buf := make([]byte, 1<<20)
+						fmt.Fprintf(os.Stderr, "STALL %s\n%s\n", s, buf[:runtime.Stack(buf, true)])
+					}
+					dump := must(rig.TakeDump(e.RawDB()))
+					parts[1] += "; incomplete delivery rows (ledger state, size, attempts, attempt_at): " + led.dueRows(dump)
+					if led.leasedInDB(dump) {
+						// the message the client nacked (or whose lease ran out) carries a
+						// lease in the database that nobody asked for
+						parts[0] += ":leased-again-in-db"
+					}
+					// which shape: replay the sender's fetch on the rows that are due in the
+					// database (this includes rows of messages that are outstanding on this
+					// very stream but whose lease has lapsed: a gRPC stream does not extend
+					// leases by itself)
+					switch hol := led.headOfLinePossible(dump); {
+					case hol:
+						parts[0] = strings.Replace(strings.Replace(parts[0], "plain", "byte-head-of-line", 1), "fitting-message-within-fetch-limit", "byte-head-of-line", 1)
+					case strings.HasPrefix(parts[0], "byte-head-of-line"):
 						// an oversized message is waiting, but it cannot be what starved the
 						// fetch: a fitting message sorts within the fetch's LIMIT
-						parts[0] = "fitting-message-within-fetch-limit"
+						parts[0] = strings.Replace(parts[0], "byte-head-of-line", "fitting-message-within-fetch-limit", 1)
 					}
 					led.mu.Lock()
 					led.viol = append(led.viol, "stall:"+parts[0]+":after-"+after+"|after "+after+": "+parts[1])
@@ -415,6 +480,15 @@ func TestC11(t *testing.T) {
 					checkStall("stream-nack")
 				case a < 7 && len(ids) > 0: // Acknowledge outside the stream
 					sel := pick(ids)
+					// from the moment the call is made the ack may have taken effect: for the
+					// bound these no longer count (the stream may already re-use the slots
+					// while the call is still returning), for the no-stall check they do
+					// until the call has returned
+					led.mu.Lock()
+					for _, id := range sel {
+						led.byAck[id].state = "acking"
+					}
+					led.mu.Unlock()
 					must(e.Sub.Acknowledge(e.Actor("ext"), &pubsubpb.AcknowledgeRequest{Subscription: sub, AckIds: sel}))
 					led.mu.Lock()
 					for _, id := range sel {
